@@ -67,7 +67,8 @@ BinVal(op, x, y) ==
          [] op = "-" -> IF ArithOK(x, y) /\ InRange(x.v - y.v) THEN N(x.v - y.v)
                         ELSE IF x.t = "d" /\ y.t = "n" /\ Abs(y.v) <= 60 THEN D(x.v - y.v) ELSE Bad
          [] op = "*" -> IF ArithOK(x, y) /\ Abs(x.v) <= 170 /\ Abs(y.v) <= 170 THEN N(x.v * y.v) ELSE Bad
-         [] op = "^" -> IF ArithOK(x, y) /\ y.v >= 0 /\ y.v <= 6 /\ Abs(x.v) <= 170 /\ PowInt(x.v, y.v) # Lim + 1 THEN N(PowInt(x.v, y.v)) ELSE Bad
+         \* (0 ^ 0 is outside the common domain: an error in the legacy engine's decimal arithmetic, 0 in the new one)
+         [] op = "^" -> IF ArithOK(x, y) /\ y.v >= 0 /\ y.v <= 6 /\ Abs(x.v) <= 170 /\ ~(x.v = 0 /\ y.v = 0) /\ PowInt(x.v, y.v) # Lim + 1 THEN N(PowInt(x.v, y.v)) ELSE Bad
          [] op = "<" -> IF ArithOK(x, y) \/ (x.t = "d" /\ y.t = "d") THEN B(x.v < y.v) ELSE Bad
          [] op = "=" -> IF ArithOK(x, y) \/ (x.t = "d" /\ y.t = "d") THEN B(x.v = y.v) ELSE IF x.t = "s" /\ y.t = "s" THEN B(x.v = y.v) ELSE Bad
          [] op = "&" -> IF x.t \in {"n", "s"} /\ y.t \in {"n", "s"} THEN S(Text(x) \o Text(y)) ELSE Bad
